@@ -90,3 +90,14 @@ func VerifFileChunks(t *Torrent, index, offset, length uint32) []VerifFileChunk 
 	}
 	return r
 }
+
+// VerifYield, when non-nil, is called at the points where an API call has
+// looked at the torrent's state and is about to queue a command for the
+// event loop.  The verification harness uses it as a scheduler gate.
+var VerifYield func(point string)
+
+func verifYield(point string) {
+	if f := VerifYield; f != nil {
+		f(point)
+	}
+}
